@@ -277,6 +277,16 @@ class IdDomain(WorldsDomain):
         for e in exprs:
             self._events(e, p)
         # 2. (re)definition of counters
+        if isinstance(node, ast.Assign) and len(node.targets) == 1 and isinstance(node.targets[0], ast.Name) and \
+                node.targets[0].id in self.counters and isinstance(node.value, ast.BinOp) and \
+                isinstance(node.value.op, ast.Add) and \
+                ((isinstance(node.value.left, ast.Name) and node.value.left.id == node.targets[0].id and
+                  literal_int(node.value.right) is not None) or
+                 (isinstance(node.value.right, ast.Name) and node.value.right.id == node.targets[0].id and
+                  literal_int(node.value.left) is not None)):
+            # c = c + k is the increment c += k
+            k_ = node.value.right if isinstance(node.value.left, ast.Name) else node.value.left
+            node = ast.copy_location(ast.AugAssign(target=node.targets[0], op=ast.Add(), value=k_), node)
         if isinstance(node, ast.Assign):
             for t in node.targets:
                 if isinstance(t, ast.Name) and t.id in self.counters:
